@@ -80,7 +80,11 @@ func sentenceSet(tier string) []string {
 	}
 	// operand paths of 0..2 steps followed by 0..2 functions of each kind, on either side
 	var opPaths []*gen.Path
-	stepsets := [][]gen.Step{{}, {gen.Name("a")}, {gen.Wild()}, {gen.Name("a"), gen.Union(gen.Idx(0))}, {gen.Rec(gen.Name("a"))}}
+	stepsets := [][]gen.Step{{}, {gen.Name("a")}, {gen.Wild()}, {gen.Name("a"), gen.Union(gen.Idx(0))}, {gen.Rec(gen.Name("a"))},
+		// every bracket form as the (only) group step of an operand: value-group operands are refused in comparisons
+		{gen.Union(gen.Slice2(gen.N(0), gen.N(2)))}, {gen.Union(gen.Slice(gen.Om(), gen.Om(), gen.N(-1)))}, {gen.Union(gen.Slice(gen.N(2), gen.N(0), gen.N(-1)))},
+		{gen.Union(gen.Slice(gen.Om(), gen.Om(), gen.N(0)))}, {gen.Union(gen.Idx(0), gen.Idx(1))}, {gen.BWild()}, {gen.Multi("a", "b")},
+		{gen.Filter(gen.Exists(gen.P('@', gen.Name("a"))))}, {gen.Rec(gen.Union(gen.Idx(0)))}, {gen.Name("a"), gen.Union(gen.Idx(-1))}, {gen.Union(gen.Slice(gen.N(-1), gen.Om(), gen.N(-1))), gen.Name("b")}}
 	fseqs := [][]string{{}, {"f"}, {"g"}, {"f", "g"}, {"g", "f"}, {"g", "g"}, {"zz"}}
 	for _, root := range []byte{'@', '$'} {
 		for _, ss := range stepsets {
